@@ -41,4 +41,5 @@ EXTRAS = [
     lambda rep, fb, tier: __import__("vf.rules.pyrules3", fromlist=["x"]).rule_py_unused_local(rep),
     lambda rep, fb, tier: __import__("vf.rules.binding2", fromlist=["x"]).rule_binding_call_roles(rep, fb),
     lambda rep, fb, tier: __import__("vf.rules.lints3", fromlist=["x"]).rule_regular_zeros_length(rep, fb),
+    lambda rep, fb, tier: __import__("vf.rules.pyrules5", fromlist=["x"]).rule_py_slice_consumed(rep),
 ]
